@@ -470,6 +470,14 @@ func runDeriv(c *Ctx) {
 	for len(mintSeeds) < nSeeds {
 		mintSeeds = append(mintSeeds, genSeed(r))
 	}
+	// pre-searched (HMAC only, with the monitor): seeds for which the key at level 0..3 of m/0'/0'/idx' has a
+	// leading zero byte, i.e. where ser256 padding in the next hardened derivation matters
+	type mintJob struct {
+		seed  []byte
+		idxs  []uint32
+		class string
+	}
+	var mintJobs []mintJob
 	for si, seed := range mintSeeds {
 		idxs := []uint32{0, 1, 2, 3}
 		if si == len(mintSeeds)-1 {
@@ -478,10 +486,38 @@ func runDeriv(c *Ctx) {
 		if c.Thorough {
 			idxs = append(idxs, uint32(r.U64()%(1<<31)))
 		}
-		for _, idx := range idxs {
+		mintJobs = append(mintJobs, mintJob{seed, idxs, "plain"})
+	}
+	{
+		perLevel := 1
+		if c.Thorough {
+			perLevel = 4
+		}
+		sr := r.Fork()
+		got := [4]int{}
+		for tries := 0; tries < 400000 && (got[0] < perLevel || got[1] < perLevel || got[2] < perLevel || got[3] < perLevel); tries++ {
+			seed := sr.Bytes(32)
+			idx := uint32(sr.Intn(4))
+			_, tr, ok := smDerive(seed, []uint32{smHard, smHard, smHard + idx})
+			if !ok {
+				continue
+			}
+			for lvl, k := range tr {
+				if k.BitLen() <= 248 && got[lvl] < perLevel {
+					got[lvl]++
+					mintJobs = append(mintJobs, mintJob{seed, []uint32{idx}, fmt.Sprintf("lz-level%d", lvl)})
+					break
+				}
+			}
+		}
+		c.Res.Notes = append(c.Res.Notes, fmt.Sprintf("mint keysets with a leading-zero key at path level 0..3: %v", got))
+	}
+	for _, job := range mintJobs {
+		seed := job.seed
+		for _, idx := range job.idxs {
 			impl, ks := goMintKeys(seed, idx)
 			replay := map[string]any{"seed_hex": hex.EncodeToString(seed), "idx": idx}
-			b.add(L(A("spec.mintkeys"), hx(seed), N(uint64(idx))), impl, fmt.Sprintf("mintkeys/seedlen=%d/idx=%d", len(seed), idx), replay)
+			b.add(L(A("spec.mintkeys"), hx(seed), N(uint64(idx))), impl, fmt.Sprintf("mintkeys/%s/seedlen=%d/idx=%d", job.class, len(seed), idx), replay)
 			if ks != nil {
 				realKeysets = append(realKeysets, ks)
 				id, _ := hex.DecodeString(ks.Id)
@@ -724,11 +760,37 @@ func runDeriv(c *Ctx) {
 
 	// ---- (d) wallet P2PK key ----
 	nP2PK := 60 * scale
+	var p2pkSeeds [][]byte
+	var p2pkClass []string
 	for i := 0; i < nP2PK; i++ {
 		seed := genSeed(r)
 		if i < len(seeds) {
 			seed = seeds[i]
 		}
+		p2pkSeeds = append(p2pkSeeds, seed)
+		p2pkClass = append(p2pkClass, "plain")
+	}
+	{
+		// pre-searched: a leading-zero key at m, m/129372' or m/129372'/0' (parents of hardened children)
+		wantLz := 8 * scale
+		sr := r.Fork()
+		for tries, got := 0, 0; got < wantLz && tries < 400000; tries++ {
+			seed := sr.Bytes(16 + sr.Intn(49))
+			_, tr, ok := smDerive(seed, []uint32{smHard + 129372, smHard + 0})
+			if !ok {
+				continue
+			}
+			for _, k := range tr {
+				if k.BitLen() <= 248 {
+					got++
+					p2pkSeeds = append(p2pkSeeds, seed)
+					p2pkClass = append(p2pkClass, "lz-path")
+					break
+				}
+			}
+		}
+	}
+	for i, seed := range p2pkSeeds {
 		impl := goP2PK(seed)
 		replay := map[string]any{"seed_hex": hex.EncodeToString(seed)}
 		mk, ok := smP2PK(seed)
@@ -739,7 +801,7 @@ func runDeriv(c *Ctx) {
 		if mon != impl {
 			c.MonitorFail("C11", "p2pk-go-vs-monitor", fmt.Sprintf("wallet.DeriveP2PK = %s, independent m/129372'/0'/1'/0 = %s", impl, mon), replay)
 		}
-		b.add(L(A("spec.p2pk"), hx(seed)), impl, fmt.Sprintf("p2pk/seedlen=%d", len(seed)), replay)
+		b.add(L(A("spec.p2pk"), hx(seed)), impl, fmt.Sprintf("p2pk/%s/seedlen=%d", p2pkClass[i], len(seed)), replay)
 	}
 	leanTotal += b.flush("p2pk")
 
